@@ -1,4 +1,5 @@
 import argparse, importlib, os, sys, warnings, logging
+from vlib import env  # noqa: F401
 
 warnings.simplefilter("ignore")
 logging.disable(logging.CRITICAL)
